@@ -485,23 +485,19 @@ ob("C06.parse_number", ["C06", "C05"], "chess-movegen", _FN + "c06_parse_number"
    contract="ALL byte strings of length <= 6: value of the <= 4 leading digits, exactly those consumed, None iff no leading digit; no overflow")
 ob("C06.parse_small", ["C06", "C05"], "chess-movegen", _FN + "c06_parse_small", kind="complete", flags="full", timeout=900, mem_gb=3, functions=["fen::parse_whitespace", "fen::parse_dash", "fen::parse_castle_rights"],
    contract="ALL byte strings of length <= 5: whitespace run consumed / error iff none; dash; castle letter: consume exactly what their spec says")
-ob("C06.total.4", ["C06"], "chess-movegen", _FN + "c06_total_4", kind="bounded", bound="all byte strings of length <= 4", flags="full", timeout=3000, mem_gb=14, functions=["fen::parse_fen"],
-   contract="parse_fen returns (no panic / overflow / out-of-bounds) on ALL byte strings of length <= 4")
-ob("C06.total.6", ["C06"], "chess-movegen", _FN + "c06_total_6", kind="bounded", bound="all byte strings of length <= 6", flags="full", timeout=7200, mem_gb=20, tier="thorough", functions=["fen::parse_fen"],
-   contract="parse_fen returns on ALL byte strings of length <= 6")
-ob("C06.total.tail", ["C06"], "chess-movegen", _FN + "c06_total_tail", kind="bounded", bound="valid placement field + ALL byte strings of length <= 7 for the remaining fields", flags="full", timeout=3000, mem_gb=14, functions=["fen::parse_fen", "Board::validate"],
-   contract="after a concrete valid placement: every byte string of length <= 7: no panic; Ok(b) => placement as in the text and b.validate() is Ok")
-ob("C05.parse_tail", ["C05", "C06"], "chess-movegen", _FN + "c05_parse_tail", kind="bounded", bound="one fixed placement; ALL values of the five trailing fields (2 x 16 x 9 x 10000 x 10000)", flags="full", timeout=3000, mem_gb=14, functions=["fen::parse_fen", "Board::update_pin_info"],
-   contract="parse_fen(placement ++ canonical text of (turn, rights, e.p., half, full)) == Ok(b) with exactly these fields, hash field == from-scratch piece hash, cached sets == spec")
-ob("C05.parse_rank", ["C05", "C06"], "chess-movegen", _FN + "c05_parse_rank", kind="bounded", bound="one symbolic rank (ranks 2..7, 13^8 contents), kings fixed, other ranks empty", flags="full", timeout=3000, mem_gb=14, functions=["fen::parse_fen"],
-   contract="parse_fen(canonical text) == Ok(board with exactly this placement), or a validation error when the position is not playable; never a syntax error")
-ob("C05.write_tail", ["C05"], "chess-movegen", _FN + "c05_write_tail", kind="bounded", bound="one fixed placement; ALL values of the five trailing fields incl. full 16-bit clocks", flags="full", timeout=3000, mem_gb=10, functions=["<Board as Display>::fmt", "<CastleRights as Debug>::fmt"],
-   contract="Display == canonical FEN text byte for byte: side, KQkq subset in that order or '-', e.p. square on the capture rank (6 for White to move, 3 for Black) or '-', clocks")
-ob("C05.write_rank", ["C05"], "chess-movegen", _FN + "c05_write_rank", kind="bounded", bound="one symbolic rank (any rank, 13^8 contents), other ranks empty", flags="full", timeout=3000, mem_gb=10, functions=["<Board as Display>::fmt", "RawBoard::get"],
-   contract="Display == canonical FEN text: piece letters, runs of empty squares as digits, '/' separators")
+_GROUND = [("standard", "standard position"), ("kiwipete", "kiwipete, all rights, clocks 10/99"), ("ep_white", "e.p. square d6, White to move"), ("ep_black", "e.p. square d3, Black to move"),
+           ("rights_kq", "rights Kq, clocks 100/9999, Black to move"), ("rights_qk", "rights Qk, clocks 9/10"), ("runs", "empty runs 1..7, every black piece kind, clocks 1234/567"), ("check", "side to move in check, pinned piece, right K")]
+_GROUND += [("r%02d" % i, "castling subset %d" % i) for i in (0, 1, 2, 3, 4, 5, 7, 8, 10, 11, 12, 13, 14)]
+for _n, _d in _GROUND:
+    ob("C05.ground." + _n, ["C05", "C06"], "chess-movegen", _FN + "c05_ground_" + _n, kind="ground", flags="full", timeout=1500, mem_gb=4,
+       functions=["fen::parse_fen", "<Board as Display>::fmt", "<CastleRights as Debug>::fmt", "Board::validate", "Board::update_pin_info"],
+       contract="ground round trip (%s): parse_fen(text) == Ok(b); Display(b) == text byte for byte; the spec writer applied to view(b) == text (b denotes exactly the described position); hash field == from-scratch piece hash; cached sets == spec; position playable" % _d)
+for _off, _what in ((0, "first piece letter"), (2, "first rank separator"), (17, "separator after the placement"), (18, "side to move"), (20, "castling field"), (22, "en-passant field"), (24, "half-move clock"), (26, "full-move number")):
+    ob("C06.window.%02d" % _off, ["C06"], "chess-movegen", _FN + "c06_w_%02d" % _off, kind="bounded", bound="one arbitrary byte at offset %d (%s) of the 27-byte text 'k7/8/8/8/8/8/8/K7 w - - 0 1'" % (_off, _what), flags="full", timeout=1500, mem_gb=5,
+       functions=["fen::parse_fen", "Board::validate"], contract="all 256 values of that byte: parse_fen returns (no panic / overflow / out-of-bounds); an accepted board passes validate()")
 ob("C05.constructors", ["C05", "C04"], "chess-movegen", _FN + "c05_constructors", kind="ground", flags="full", timeout=1500, mem_gb=4, functions=["Board::standard", "Board::builder", "BoardBuilder::place", "BoardBuilder::castle_rights", "BoardBuilder::build", "fen::parse_fen"],
    contract="standard(), the builder fed with the standard placement, and parse_fen(standard FEN) are field-for-field identical (position, hash, cached sets)")
-ob("C06.fen_cover", ["C06", "C05"], "chess-movegen", _FN + "c06_fen_cover", kind="cover", flags="full", timeout=3000, mem_gb=14, contract="vacuity guard: accepted tail, trailing bytes, invalid en passant reachable")
+ob("C06.fen_cover", ["C06", "C05"], "chess-movegen", _FN + "c06_fen_cover", kind="cover", flags="full", timeout=1500, mem_gb=5, contract="vacuity guard: accepted text with Black to move and an invalid-turn error are both reachable")
 PROPERTY_META["C06"] = dict(
     level="model_checking",
     explanation="Validation half: PROOF — Board::validate() on a fully symbolic board: Ok => each of the five playability clauses (one assertion per clause), playable => Ok (no over-rejection), error classification; has_kings; BoardBuilder::build; update_pin_info (foreach-loop proof). Parser totality half: BOUNDED — helper parsers on all short byte strings (complete for the bytes they inspect), parse_fen on all byte strings up to a length bound and on a valid placement followed by all short tails. Long garbage inside the placement field is not covered.",
@@ -531,7 +527,7 @@ ob("C07.king_sq", ["C07"], "chess-movegen", "kani_verif_c07::c07_king_sq", kind=
 ob("C07.ep_capturers", ["C07"], "chess-movegen", "kani_verif_c07::c07_ep_capturers", kind="complete", flags="safety", timeout=600, mem_gb=2,
    functions=["chess_lookup::ADJACENT_FILES"], contract="(ADJACENT_FILES[f] & rank) has at most two squares: at most two en-passant entries (capacity argument: 16 + 2 <= 18)")
 ob("C07.make_move", ["C07"], "chess-movegen", "kani_verif_c07::c07_make_move_safety", kind="complete", flags="safety", timeout=2400, mem_gb=6, stubs=_MKSTUBS,
-   functions=_MK, contract="safety only, all default checks on: move_unchecked_into on any ACCEPTED position (back-rank pawns allowed) with any pseudo-legal move of any kind: no unchecked-operation precondition violated, no overflow below the 16-bit clock limit, no out-of-range index")
+   functions=_MK, contract="safety only, all default checks on: move_unchecked_into on any ACCEPTED position (back-rank pawns allowed) with any pseudo-legal move of any kind: no unchecked-operation precondition violated, no arithmetic overflow for ANY 16-bit clock values, no out-of-range index")
 ob("C07.cover", ["C07"], "chess-movegen", "kani_verif_c07::c07_cover", kind="cover", flags="safety", timeout=1200, mem_gb=4, contract="vacuity guard: accepted positions with a pawn on the last rank and a pseudo-legal move exist")
 PROPERTY_META["C07"] = dict(
     level="proof",
